@@ -216,7 +216,7 @@ class Checker:
             if 1 <= L_ <= 3 and all(len(w) == L_ for w in p) and not self.qual:       # as_matrix asserts that there are no dangling nodes
                 ids = sorted({o for w in p for o in w} | {o for e in g.edges.values() for o, _ in e.opics} | {0})
                 r_ = np.random.default_rng(len(p) + 7 * L_)
-                opmap = {o: (np.identity(2) if o == 0 else r_.standard_normal((2, 2)) + 1j * r_.standard_normal((2, 2))) for o in ids}
+                opmap = {o: (np.identity(2) if o == 0 else (r_.standard_normal((2, 2)) + 1j * r_.standard_normal((2, 2)) if o % 2 else r_.standard_normal((2, 2)))) for o in ids}
                 ref = hg.poly_dense(p, opmap, L_, 2)
                 for direction in (1, 0):
                     m = np.asarray(g.as_matrix(opmap, direction))
